@@ -9,11 +9,13 @@
 use spl_frontend::tokens::IntResult;
 
 fn kind(k: u8) -> TokenType {
-    match k % 5 {
+    match k % 7 {
         0 => TokenType::Comma,
         1 => TokenType::LParen,
         2 => TokenType::RParen,
         3 => TokenType::Semic,
+        4 => TokenType::LBracket,
+        5 => TokenType::RBracket,
         _ => TokenType::Int(IntResult::Int(7)),
     }
 }
@@ -44,13 +46,13 @@ fn c14_active_q() {
     let mut commas = 0u32;
     let mut i = 0;
     while i < N {
-        if i < cursor && kinds[i] % 5 == 0 {
+        if i < cursor && kinds[i] % 7 == 0 {
             commas += 1;
         }
         i += 1;
     }
     kani::cover!(has_params && commas == 2 && cursor < N, "two commas before a cursor inside the call");
-    kani::cover!(has_params && cursor < N && kinds[cursor] % 5 == 0, "cursor exactly on a comma");
+    kani::cover!(has_params && cursor < N && kinds[cursor] % 7 == 0, "cursor exactly on a comma");
     kani::cover!(!has_params, "callee without parameters");
     if has_params {
         assert!(got == Some(commas), "C14 active parameter != number of commas before the cursor");
@@ -89,7 +91,7 @@ fn c14_active_t() {
     let mut commas = 0u32;
     let mut i = 0;
     while i < N {
-        if starts[i] < cursor && kinds[i] % 5 == 0 {
+        if starts[i] < cursor && kinds[i] % 7 == 0 {
             commas += 1;
         }
         i += 1;
